@@ -29,6 +29,7 @@ import (
 	"math/rand"
 	"os"
 	"runtime"
+	"runtime/debug"
 	"sort"
 	"strings"
 	"sync"
@@ -434,7 +435,13 @@ func (r *vcfsRun) guard(what string, f func()) {
 	gidc := make(chan string, 1)
 	go func() {
 		gidc <- vcfsGoID()
-		defer func() { done <- recover() }()
+		defer func() {
+			if p := recover(); p != nil {
+				done <- vcfsAttribute(p, debug.Stack())
+			} else {
+				done <- nil
+			}
+		}()
 		f()
 	}()
 	gid = <-gidc
@@ -444,7 +451,8 @@ func (r *vcfsRun) guard(what string, f func()) {
 		select {
 		case p := <-done:
 			if p != nil {
-				r.log(vcfsEvent{"ev": "panic", "op": what, "what": fmt.Sprint(p)})
+				pa := p.(vcfsPanic)
+				r.log(vcfsEvent{"ev": "panic", "op": what, "what": pa.what, "incode": pa.inCode, "at": pa.at})
 				r.dead = true
 			}
 			return
@@ -458,6 +466,47 @@ func (r *vcfsRun) guard(what string, f func()) {
 			t.Reset(30 * time.Second)
 		}
 	}
+}
+
+// vcfsAttribute decides from the stack of the panicking goroutine (taken in the deferred function,
+// i.e. with the frames of the panic still on it) whose panic it is: the code under test's only if
+// the first frame below the panic that is outside the Go runtime / standard library lies in a
+// source file of this package that is not part of the injected harness (zz_verif_*).  Harness
+// code runs under the same recover() (walker, accessors, generators): its panics are
+// infrastructure errors (checks/C08.py: infra_events), never verdicts.
+type vcfsPanic struct {
+	what   string
+	inCode bool
+	at     string
+}
+
+func vcfsAttribute(p interface{}, stack []byte) vcfsPanic {
+	lines := strings.Split(string(stack), "\n")
+	start := -1
+	for i, ln := range lines {
+		if strings.HasPrefix(ln, "panic(") {
+			start = i
+		}
+	}
+	res := vcfsPanic{what: fmt.Sprint(p)}
+	if start < 0 {
+		return res
+	}
+	for _, ln := range lines[start+1:] {
+		if !strings.HasPrefix(ln, "\t") {
+			continue
+		}
+		file := strings.Fields(strings.TrimSpace(ln))[0]
+		if strings.Contains(file, "/src/runtime/") || strings.Contains(file, "/src/internal/") ||
+			strings.Contains(file, "/src/sync/") || strings.Contains(file, "/src/testing/") ||
+			(strings.Contains(file, "/go") && strings.Contains(file, "/src/") && !strings.Contains(file, "/sdk/go/arvados/")) {
+			continue
+		}
+		res.at = file
+		res.inCode = strings.Contains(file, "/sdk/go/arvados/") && !strings.Contains(file, "zz_verif_")
+		return res
+	}
+	return res
 }
 
 func vcfsGoID() string {
@@ -555,7 +604,7 @@ func (r *vcfsRun) do(op vcfsOp) {
 			res = "err"
 		}
 		if n < 0 || n > len(buf) {
-			r.log(vcfsEvent{"ev": "panic", "op": "read", "what": fmt.Sprintf("Read returned n=%d for a %d-byte buffer", n, len(buf))})
+			r.log(vcfsEvent{"ev": "panic", "op": "read", "incode": true, "what": fmt.Sprintf("Read returned n=%d for a %d-byte buffer", n, len(buf))})
 			r.dead = true
 			return
 		}
@@ -893,7 +942,7 @@ func (r *vcfsRun) posReads() {
 				return
 			}
 			if n < 0 || n > k {
-				r.log(vcfsEvent{"ev": "panic", "op": "read", "what": fmt.Sprintf("Read returned n=%d for a %d-byte buffer", n, k)})
+				r.log(vcfsEvent{"ev": "panic", "op": "read", "incode": true, "what": fmt.Sprintf("Read returned n=%d for a %d-byte buffer", n, k)})
 				r.dead = true
 				return
 			}
@@ -1359,7 +1408,7 @@ func (r *vcfsRun) start(extra vcfsEvent) error {
 	}
 	r.log(ev)
 	if err != nil {
-		r.log(vcfsEvent{"ev": "panic", "op": "load", "what": err.Error()})
+		r.log(vcfsEvent{"ev": "panic", "op": "load", "incode": true, "what": err.Error()})
 		r.dead = true
 		return err
 	}
